@@ -125,7 +125,16 @@ func inDomain(list []action) (bool, string) {
 	nIn, nOut := 0, 0
 	particular := map[[2]int]int{}
 	genericSeen := map[[2]int]bool{}
+	vetoes := map[int]int{}
 	for _, a := range list {
+		if a.Kind == kVeto {
+			// veto actions are not merged by MergeSpendAction: two of them on one account reserve
+			// independently and compete for the same outputs (the second one can be refused although
+			// the sum is funded) - one reservation per source is part of the domain
+			if vetoes[a.Acct]++; vetoes[a.Acct] > 1 {
+				return false, "two veto actions on one account"
+			}
+		}
 		if a.isInput() {
 			nIn++
 			in[a.Asset] += a.Amount
